@@ -1,4 +1,4 @@
-import MdsVerif.Proofs.Omap
+import MdsVerif.Proofs.OmapTree
 /-!
 # C04 — `omap.Map` is an ordered map: lookups, updates and iterators match a reference
 
@@ -11,12 +11,13 @@ off either end).  `cmp` is any comparator with `Std.TransCmp` (natural, reversed
 creation (`First/Last/Seek`), `Iter.Seek/Next/Prev` and reading `IsValid/Key/Value`, every output of
 the model equals the output of the reference.
 
-Hypothesis `TreeFacts (kvCmp cmp)`: the two facts about `stree.Tree` that belong to C01 —
-`Replace` / `Remove` never panic on a well-formed tree, keep it a search tree with the right
-`size`, and act on the key list as sorted insertion (replacing the equivalent key) / removal with
-the right Boolean.  Everything else about the tree that omap uses is proved here (`Get`, `Inorder`,
-`InorderAfter`'s first key, `Cursor`, `Root`, `Min`, `Max`, `Next`, `Prev`, a failed `Remove` is the
-identity).
+The two facts about `stree.Tree` that belong to C01 — `Replace` / `Remove` never panic on a
+well-formed tree, keep it a search tree with the right `size`, and act on the key list as sorted
+insertion (replacing the equivalent key) / removal with the right Boolean — are the structure
+`TreeFacts`; `Proofs/OmapTree.treeFacts` discharges it from C01's `insertTop_ok` /
+`remove_top_ok`, so the theorems below carry no hypothesis.  Everything else about the tree that
+omap uses is proved in `Proofs/Omap` and `Proofs/Cursor` (`Get`, `Inorder`, `InorderAfter`'s first
+key, `Cursor`, `Root`, `Min`, `Max`, `Next`, `Prev`, a failed `Remove` is the identity).
 
 Not a theorem (invisible in a value model): copies of a `Map` share the same contents.  That is
 aliasing of the tree pointer; it is tied by the correspondence stream only (map registers are
@@ -34,25 +35,25 @@ open MdsVerif.Proofs.Cursor MdsVerif.Proofs.Omap
 variable {K V : Type} (cmp : K → K → Ordering) [Std.TransCmp cmp] [Inhabited V]
 
 /-- **C04**: every history on `NewFunc(cmp)` agrees with the reference sorted map -/
-theorem C04_history (F : TreeFacts (Omap.kvCmp (V := V) cmp)) (ops : List (Omap.Op K V)) :
+theorem C04_history (ops : List (Omap.Op K V)) :
     Omap.run cmp { m := Omap.newFunc } ops = AssocRef.run cmp { l := some [] } ops := by
-  apply run_refines cmp F
+  apply run_refines cmp (treeFacts _)
   refine ⟨Or.inr ⟨T.empty 250, rfl, ⟨List.Pairwise.nil, rfl⟩, rfl⟩, fun i => ?_⟩
   exact .none
 
 /-- **C04, zero Map**: every history on the zero Map agrees with the reference's zero map (an empty
 map on which `Set` is an error) -/
-theorem C04_history_zero (F : TreeFacts (Omap.kvCmp (V := V) cmp)) (ops : List (Omap.Op K V)) :
+theorem C04_history_zero (ops : List (Omap.Op K V)) :
     Omap.run cmp { m := Omap.zero } ops = AssocRef.run cmp { l := none } ops := by
-  apply run_refines cmp F
+  apply run_refines cmp (treeFacts _)
   exact ⟨Or.inl ⟨rfl, rfl⟩, fun i => .none⟩
 
 /-- one step from any related pair of states (what the two history theorems iterate) -/
-theorem C04_step (F : TreeFacts (Omap.kvCmp (V := V) cmp)) (s : Omap.State K V) (a : AssocRef.S K V)
+theorem C04_step (s : Omap.State K V) (a : AssocRef.S K V)
     (h : Rel cmp s a) (op : Omap.Op K V) :
     (Omap.step cmp s op).2 = (AssocRef.step cmp a op).2 ∧
       Rel cmp (Omap.step cmp s op).1 (AssocRef.step cmp a op).1 :=
-  step_refines cmp F s a h op
+  step_refines cmp (treeFacts _) s a h op
 
 omit [Std.TransCmp cmp] in
 /-- **the zero Map behaves as an empty read-only map**: `Set` panics; every other operation
@@ -161,8 +162,7 @@ theorem ref_set_new_iff (k : K) (v : V) (l : List (K × V))
 
 def natCmp (a b : Nat) : Ordering := compare a b
 
-/-- the hypothesis is satisfiable where it is used: on a concrete tree `Replace` and `Remove` do
-what `TreeFacts` says (a new key, an existing key, a two-child removal, an absent key) -/
+/-- `TreeFacts` on a concrete tree: `Replace` and `Remove` do what it says (a new key, an existing key, a two-child removal, an absent key) -/
 example :
     let c := Omap.kvCmp (V := Nat) natCmp
     let t : T (Nat × Nat) :=
